@@ -102,6 +102,14 @@ func unitsForProperty(w *World, prop string, dirs []string) []*UnitResult {
 				}
 				continue
 			}
+			if strings.HasPrefix(key, "fieldpartition:") {
+				for _, fp := range cs.Partitions {
+					if fp.Type == strings.TrimPrefix(key, "fieldpartition:") && (prop == "" || hasProp(fp.Props, prop)) {
+						units = append(units, w.verifyFieldPartition(p, fp))
+					}
+				}
+				continue
+			}
 			if strings.HasPrefix(key, "immutable:") {
 				for _, d := range cs.Immutable {
 					if d.Name == strings.TrimPrefix(key, "immutable:") && (prop == "" || hasProp(d.Props, prop)) {
